@@ -96,7 +96,7 @@ PROPS = {
                    "list inside the evaluated set of that family, ending in an unconditional reject (each_update_safe); the same "
                    "after every prefix of every permutation of the update list, all other policies being untouched "
                    "(every_prefix_safe); such a policy accepts a route only if an evaluated range of the route's family matches "
-                   "it (accept_subset); every element written lies on configuration/policy-options/policy-statement (payload_rooted).",
+                   "it (accept_subset); every element written lies on configuration/policy-options/policy-statement (payload_rooted). The event-level installed reader is fail-closed on route-filters it cannot represent: another match type, a flag element or an unknown element fails the read, it is never skipped (routeFilter_other_match_type_fails, routeFilter_flag_element_fails, routeFilter_unknown_element_fails).",
         level_note="Domain: the agent's own ephemeral instance (AgentState); foreign_state_cex shows a readable foreign state "
                    "(accepting term without route-filters) that a run does not repair. raw_names_stale_cex: with raw names "
                    "(D15) stale ranges are never deleted -- reported by the run as class name-mangled.",
